@@ -243,7 +243,7 @@ fn make_crypto_reader<'a>(
         }
         #[cfg(feature = "aes-crypto")]
         (Some(password), Some((aes_mode, vendor_version))) => {
-            match AesReader::new(reader, aes_mode, compressed_size).validate(password)? {
+            match AesReader::new(reader, aes_mode, compressed_size)?.validate(password)? {
                 None => return Ok(Err(InvalidPassword)),
                 Some(r) => CryptoReader::Aes {
                     reader: r,
